@@ -120,6 +120,9 @@ pub struct Swarm {
     pub vari_pct: usize,
     pub multibyte_pct: usize,
     pub odd_msgtype_pct: usize,
+    /// share of byte / text payload fields that get the storage-header magic "DLT\x01" embedded
+    /// (legal content: a DLT stream logged inside a DLT stream, or plain chance)
+    pub embed_magic_pct: usize,
 }
 
 impl Swarm {
@@ -154,6 +157,7 @@ impl Swarm {
             vari_pct: *r.pick(&[0, 20, 50, 100]),
             multibyte_pct: *r.pick(&[0, 10, 50]),
             odd_msgtype_pct: *r.pick(&[0, 10, 40]),
+            embed_magic_pct: *r.pick(&[0, 0, 0, 5, 30, 100]),
         }
     }
     /// a narrow swarm for statistics: small id alphabets so that ids collide
@@ -169,7 +173,13 @@ impl Swarm {
 
 const ID_CHARS: &[u8] = b"ABCDEFGHIJKLMNOPQRSTUVWXYZabcdefghijklmnopqrstuvwxyz0123456789_- ";
 
+/// ids that collide with words the crate itself uses as defaults / placeholders
+const SPECIAL_IDS: &[&str] = &["NONE", "ECU", "none", "NON", "DLT", "\u{e4}\u{f6}", "\u{20ac}"];
+
 pub fn gen_id(r: &mut Rng, alphabet: usize) -> String {
+    if r.chance(1, 20) {
+        return (*r.pick(SPECIAL_IDS)).to_string();
+    }
     // 0..=4 bytes, no NUL; small alphabets make ids collide
     let len = *r.pick(&[0usize, 1, 2, 3, 4, 4, 4, 3]);
     let mut s = String::new();
@@ -179,9 +189,22 @@ pub fn gen_id(r: &mut Rng, alphabet: usize) -> String {
     s
 }
 
+/// text starts that string-handling code likes to special-case: byte-order mark, replacement
+/// character, line separators, first / last code point of each UTF-8 length, private use
+const TEXT_STARTS: &[&str] = &[
+    "\u{feff}", "\u{feff}\u{feff}", "\u{fffe}", "\u{fffd}", "\u{2028}", "\u{80}", "\u{7ff}", "\u{800}", "\u{ffff}", "\u{10000}",
+    "\u{10ffff}", "\u{e000}", "\r\n", "\t", " ", "%s", "{}", "\\", "\u{300}", "DLT\u{1}",
+];
+
 fn gen_text(r: &mut Rng, max_bytes: usize, multibyte_pct: usize) -> String {
-    const MB: &[&str] = &["ä", "ß", "€", "日", "本", "𝄞", "é", "Ω", "\u{7f}", "\u{1}"];
+    const MB: &[&str] = &["ä", "ß", "€", "日", "本", "𝄞", "é", "Ω", "\u{7f}", "\u{1}", "\u{feff}", "\u{fffd}", "\u{10ffff}"];
     let mut s = String::new();
+    if multibyte_pct > 0 && r.chance(1, 6) {
+        let c = *r.pick(TEXT_STARTS);
+        if c.len() <= max_bytes {
+            s.push_str(c);
+        }
+    }
     while s.len() < max_bytes {
         if r.chance(multibyte_pct, 100) {
             let c = *r.pick(MB);
@@ -194,6 +217,20 @@ fn gen_text(r: &mut Rng, max_bytes: usize, multibyte_pct: usize) -> String {
         }
     }
     s
+}
+
+/// `n` payload bytes; in swarms that ask for it, with the storage-header magic somewhere inside
+fn payload_bytes(r: &mut Rng, sw: &Swarm, n: usize) -> Vec<u8> {
+    let mut b = r.bytes(n);
+    if n >= 4 && r.chance(sw.embed_magic_pct, 100) {
+        let at = match r.below(4) {
+            0 => 0,
+            1 => n - 4,
+            _ => r.below(n - 3),
+        };
+        b[at..at + 4].copy_from_slice(b"DLT\x01");
+    }
+    b
 }
 
 fn size_class(r: &mut Rng, sw: &Swarm, budget: usize) -> usize {
@@ -406,7 +443,7 @@ pub fn gen_argument(r: &mut Rng, sw: &Swarm, budget: usize) -> Option<Argument> 
         }
         Value::Raw(_) => {
             let n = size_class(r, sw, room);
-            Value::Raw(r.bytes(n))
+            Value::Raw(payload_bytes(r, sw, n))
         }
         v => v,
     };
@@ -542,7 +579,7 @@ pub fn gen_message(r: &mut Rng, sw: &Swarm) -> (Message, &'static str) {
             if let MessageType::Control(_) = mt {
                 mt = MessageType::Log(LogLevel::Warn);
             }
-            (PayloadContent::NonVerbose(id, r.bytes(n)), false, 0, if has_ext { Some(mt) } else { None })
+            (PayloadContent::NonVerbose(id, payload_bytes(r, sw, n)), false, 0, if has_ext { Some(mt) } else { None })
         }
         3 => {
             let n = budget.saturating_sub(1);
@@ -557,7 +594,7 @@ pub fn gen_message(r: &mut Rng, sw: &Swarm) -> (Message, &'static str) {
                 2 => ControlType::Unknown(0),
                 _ => ControlType::Unknown(3 + r.below(13) as u8),
             });
-            (PayloadContent::ControlMsg(ct, r.bytes(n)), false, 0, Some(mt))
+            (PayloadContent::ControlMsg(ct, payload_bytes(r, sw, n)), false, 0, Some(mt))
         }
         _ => {
             // network trace: verbose, every argument raw without variable info
@@ -569,7 +606,7 @@ pub fn gen_message(r: &mut Rng, sw: &Swarm) -> (Message, &'static str) {
                     break;
                 }
                 let n = size_class(r, sw, left - 6);
-                slices.push(r.bytes(n));
+                slices.push(payload_bytes(r, sw, n));
                 left -= 6 + n;
             }
             let nt = match r.below(8) {
